@@ -33,6 +33,7 @@ def main():
     # ---- unit level: _check_message_formats on synthetic ctx / message / flags
     cases = C.corpus_cases() + [C.gen_case(rng) for _ in range(n_unit)]
     lines, outs, runs = [], [], []
+    slines, souts = [], []          # the brace kinds once more, as raw strings (the model parses them itself)
     for case in cases:
         out, calls = C.run_unit(case)
         runs.append((case, calls, out))
@@ -49,8 +50,15 @@ def main():
             except Exception as exc:                       # the harness' own calls into the real parser
                 lines.append('fmtcheck bad-case')
                 stats['encode-failed:' + type(exc).__name__] += 1
+            if C.has_brace(case):
+                try:
+                    slines.append(C.encode(case, raw=True))
+                    souts.append(out)
+                except Exception as exc:
+                    stats['encode-failed:' + type(exc).__name__] += 1
     if driver_ok:
         chk.stream('fmtcheck-unit', lines, outs)
+        chk.stream('fmtcheck-unit-strings', slines, souts)
         ll, lo = C.lastint_cases(rng, n_lastint)
         chk.stream('fmtcheck-lastint', ll, lo)
     else:
@@ -63,6 +71,7 @@ def main():
     e2e_runs = []
     try:
         lines, outs = [], []
+        slines, souts = [], []
         for _ in range(n_files):
             fcases, pf, template, charset = C.gen_file(rng, per_file)
             fouts, per = C.run_e2e(fcases, pf, template, charset, work)
@@ -74,8 +83,12 @@ def main():
                 outs.append(out)
                 if driver_ok:
                     lines.append(C.encode_e2e(case, pf))
+                    if C.has_brace(case):
+                        slines.append(C.encode_e2e(case, pf, raw=True))
+                        souts.append(out)
         if driver_ok:
             chk.stream('fmtcheck-e2e', lines, outs)
+            chk.stream('fmtcheck-e2e-strings', slines, souts)
     finally:
         shutil.rmtree(work, ignore_errors=True)
 
@@ -114,8 +127,8 @@ def main():
         trusted=['Lean 4.33 kernel', 'axioms: propext, Classical.choice, Quot.sound only',
                  'translators cfmt2lean / pyfmt2lean (type tables), tagsites2lean (tag call inventory), intexpr2lean / grammar2lean (plural evaluators), fmtcheck2lean (probes of check_args and get_last_integer_conversion, re-computed by the model in the kernel)',
                  'the model of check_message / check_args / get_last_integer_conversion / the dispatch is hand-written: tied by the fmtcheck-* streams',
-                 'the parsers: C and Python-% through the models of C11 / C12 (their own streams); python-brace and perl-brace signatures are '
-                 'extracted from the real parser objects by the harness (C13)',
+                 'the parsers: C and Python-% through the models of C11 / C12, python-brace and perl-brace through the models of C13 (their own streams); '
+                 'the brace kinds are streamed both with the signature extracted from the real parser object and as raw strings',
                  'message_repr (prefix) is an input computed by calling the real function; single-string diagnostics are compared by name and prefix only',
                  'the reference comparison of the falsifier (tools/checks/fmtcheck_common.py: compare / check_case) over by-construction signatures'],
         explanation=EXPLANATION)
@@ -135,12 +148,18 @@ EXPLANATION = (
     'c/python/pybrace/perlbrace_check_message_nocrash (no exception leaves check_message, templates included), dispatch_unknown / dispatch_single, '
     'tag_sites_pin, probes_pin (kernel evaluation of the model on ~250 rows probed from the live check_args / get_last_integer_conversion each run).  Readings made explicit: the corresponding source of the form selected exactly for n = 1 is msgid (as the tags print and data/tags '
     'documents); "a single n" includes no n; the 200-window is part of the statement; python-brace identifies an argument by its full field name.  '
-    'Also: c_plain_message_iff / python_plain_message_iff / pybrace_plain_message / perlbrace_plain_message (the first sentence of the statement as one '
+    'On strings for the brace kinds (composition with C13): brace_conversion_faithful, brace_signature_of_string, pybrace_args_tags_iff_strings, '
+    'pybrace_reorder_silent, pybrace_reorder_silent_rendered (parse_renderPlain: renderings of brace-free text and plain fields are accepted with exactly the '
+    'expected arguments), pybrace_plain_message_strings, pybrace_invalid_msgstr_error, perlbrace_args_tags_iff_strings, perlbrace_tolerated_iff_strings, '
+    'perlbrace_reorder_silent, perlbrace_reorder_silent_rendered, perlbrace_invalid_msgstr_error, pybrace/perlbrace_check_message_nocrash_strings, '
+    'string_probes_pin.  Also: c_plain_message_iff / python_plain_message_iff / pybrace_plain_message / perlbrace_plain_message (the first sentence of the statement as one '
     'theorem about check_message per kind), python_reorder_silent (same (key, type) pairs among the named specifications the scanner reads), '
     'c_reorder_silent_perm, perlbrace/pybrace/python/c_output_determined + output_lists_unique (sorted() emits keys in strictly increasing order - '
     'numbers before names for python-brace - so the whole output list, order included, is determined by the signatures).  '
-    'Finding fixed in /repo: 56d8ddf (python-brace check_args raised TypeError when a numbered and a named argument were both missing).  Test level only: '
-    'the tie of the hand model to the code (fmtcheck-unit / -lastint / -e2e streams), the brace parsers (inputs here), the extras of single-string '
+    'Findings fixed in /repo: 56d8ddf (python-brace check_args raised TypeError when a numbered and a named argument were both missing), 4dd2807 (an object '
+    'address in the python-brace-format-string-error line for msgstr {0:{}}; recorded under C03).  Test level only: '
+    'the tie of the hand model to the code (fmtcheck-unit / -lastint / -e2e streams and their -strings twins that run the composed parser+comparator '
+    'model on raw strings), the extras of single-string '
     'diagnostics beyond the prefix.  c_reorder_silent_numbered is the constructive form of reorder_silent: number every reference of an unnumbered '
     'valid string (numberDirs: 1$, 2$, ... in fetch order, * widths and precisions included), let dst be any valid string whose directives are '
     'those in some order => no tag.  OUTSTANDING: nothing of the design list is missing; template-only behaviour (msgid vs msgid_plural, python template tags, qt-plural) is '
